@@ -238,7 +238,9 @@ def replay_r(case):
 def run(run):
     from vf.rt import graphsem as G
 
-    run_specs(run, repartition.SPECS, "C13")
+    from vf.contracts.registry import run_property_specs
+
+    run_property_specs(run, "C13")
     n, bad = G.check_assumed_contracts()
     run.count("C13.assumed-contracts:cross-checked-against-real-functions", n, "assumed", tier="R", rule="assumed contracts of boundary_slice / split_evenly / concat evaluated against the real dask functions")
     for b in bad:
